@@ -2,6 +2,7 @@ package ast
 
 import (
 	"sync"
+	"sync/atomic"
 
 	"github.com/ajitpratap0/GoSQLX/pkg/models"
 )
@@ -68,6 +69,9 @@ func (a *AST) Span() models.Span {
 var (
 	spanMu   sync.RWMutex
 	spanInfo = make(map[interface{}]models.Span)
+	// spanCount mirrors len(spanInfo) so that the release paths can skip the
+	// table without taking the lock while nobody has recorded a span
+	spanCount atomic.Int64
 )
 
 // SetSpan sets the source location span for an AST node.
@@ -75,6 +79,19 @@ var (
 func SetSpan(node interface{}, span models.Span) {
 	spanMu.Lock()
 	spanInfo[node] = span
+	spanCount.Store(int64(len(spanInfo)))
+	spanMu.Unlock()
+}
+
+// forgetSpan drops the span recorded for a node that goes back to its pool: the
+// table is keyed by the node's address, which the next holder of the node shares.
+func forgetSpan(node interface{}) {
+	if spanCount.Load() == 0 {
+		return
+	}
+	spanMu.Lock()
+	delete(spanInfo, node)
+	spanCount.Store(int64(len(spanInfo)))
 	spanMu.Unlock()
 }
 
